@@ -26,6 +26,11 @@ C04R = dict(prop='C04', harness='harness/C04/pages.c', extra_sources=['stubs/mem
 JOBS += [
     dict(name='c04_load_dictionary_page_mmap', entry='h_c04_dict_mmap', functions=['load_dictionary_page_mmap', 'decompress_page'], **C04R),
     dict(name='c04_load_dictionary_page_fread', entry='h_c04_dict_fread', functions=['load_dictionary_page_fread', 'decompress_page'], **C04R),
-    dict(name='c04_load_next_page_mmap', entry='h_c04_page_mmap', functions=['load_next_page_mmap', 'load_dictionary_page_mmap', 'decompress_page'], **C04R),
-    dict(name='c04_load_next_page_fread', entry='h_c04_page_fread', functions=['load_next_page_fread', 'load_dictionary_page_fread', 'decompress_page'], **C04R),
+    # case split over the column type: every type value except FIXED_LEN_BYTE_ARRAY (proof), FLBA with a fixed length (bounded)
+    dict(name='c04_load_next_page_mmap', entry='h_c04_page_mmap', defines=['PG_NOT_FLBA=1'], functions=['load_next_page_mmap', 'load_dictionary_page_mmap', 'decompress_page'], **C04R),
+    dict(name='c04_load_next_page_fread', entry='h_c04_page_fread', defines=['PG_NOT_FLBA=1'], functions=['load_next_page_fread', 'load_dictionary_page_fread', 'decompress_page'], **C04R),
+    dict(name='c04_load_next_page_mmap_flba16', entry='h_c04_page_mmap', defines=['PG_FLBA=16'], level='bounded', bound='FIXED_LEN_BYTE_ARRAY columns with type_length == 16',
+         functions=['load_next_page_mmap', 'load_dictionary_page_mmap', 'decompress_page'], **C04R),
+    dict(name='c04_load_next_page_fread_flba16', entry='h_c04_page_fread', defines=['PG_FLBA=16'], level='bounded', bound='FIXED_LEN_BYTE_ARRAY columns with type_length == 16',
+         functions=['load_next_page_fread', 'load_dictionary_page_fread', 'decompress_page'], **C04R),
 ]
